@@ -196,6 +196,169 @@ def hist_idle(cases, outs):
     return d
 
 
+RX_CLASS = "finished_stream_low_watermark_reader_parked"
+
+
+def _rx_class_known():
+    """the witness family for the known class is only generated once KNOWN_FINDINGS.txt carries the class"""
+    import os, re
+    p = os.path.join(os.path.dirname(os.path.abspath(__file__)), "..", "KNOWN_FINDINGS.txt")
+    try:
+        return any(re.match(r"known:\s+property=C02\s+class=%s\s" % RX_CLASS, ln) for ln in open(p))
+    except OSError:
+        return False
+
+
+def _rx_sim(case):
+    """tiny replay of the op list (not of the state machine): yields (op, args, fin_seen_before)"""
+    i, ended, out = 1, False, []
+    while i < len(case):
+        op = case[i] % 4
+        if op == 0 or op == 2:
+            out.append((op, case[i + 1:i + 2], ended)); i += 2
+            ended = ended or op == 2
+        elif op == 1:
+            out.append((1, case[i + 1:i + 3], ended)); i += 3
+        else:
+            out.append((3, [], ended)); i += 1
+            ended = True
+    return out
+
+
+def gen_rxwake(rng):
+    w = rng.choice([1, 2, 3, 10, 64, 100, 100, 1000, 4096, 8192, rng.randrange(1, 8193)])
+    case = [w]
+    allow_after_fin_lw = _rx_class_known()
+    ended = False
+    n = rng.choice([1, 2, 3, 5, 8, 13, 21, 34])
+    for _ in range(n):
+        r = rng.random()
+        if r < 0.45:
+            k = rng.choice([0, 1, 2, w // 2 - 1, w // 2, w // 2 + 1, w - 1, w, w + 5, rng.randrange(0, w + 2), rng.randrange(0, 2 * w + 2)])
+            case += [0, max(0, k)]
+        elif r < 0.88:
+            low = rng.choice([0, 0, 1, 2, w // 2 - 1, w // 2, w // 2 + 1, w - 1, w, w + 1, 2 * w, 5 * w + 3, rng.randrange(0, 3 * w + 2)])
+            low = max(0, low)
+            if ended and not allow_after_fin_lw:
+                low = 0
+            high = rng.choice([low, low, low + 1, max(1, low // 2), 1, w, 1 << 20, rng.randrange(1, 2 * w + 2)])
+            if ended and not allow_after_fin_lw:
+                pass
+            case += [1, low, high]
+        elif r < 0.95:
+            case += [2, max(0, rng.choice([0, 1, w // 2, w, rng.randrange(0, w + 2)]))]
+            ended = True
+        else:
+            case += [3]
+            ended = True
+    return case
+
+
+def fixed_rxwake(tier):
+    out = [
+        [100, 1, 200, 200, 0, 64],                       # low watermark above the window: woken at the flow watermark
+        [100, 1, 4096, 4096, 0, 32, 0, 32, 0, 36, 1, 0, 100],   # the window fills up completely
+        [100, 1, 10, 10, 0, 5, 0, 5, 1, 0, 100, 2, 0, 1, 0, 100],
+        [100, 0, 10, 1, 20, 20, 2, 0, 1, 0, 20],         # parked, FIN arrives: woken
+        [16, 1, 0, 5, 0, 1, 1, 0, 5, 3, 1, 0, 100],      # parked, reset arrives: woken
+        [1, 1, 5, 5, 0, 1, 1, 0, 1],
+        [8192, 1, 8192, 8192, 0, 4095, 0, 1, 0, 4096, 1, 8192, 8192],
+    ]
+    if _rx_class_known():
+        out.append([100, 2, 10, 1, 20, 20])               # FIN received, low watermark above the rest: parked (known class)
+    alpha = [(0, 1), (0, 3), (0, 7), (1, 0, 4), (1, 4, 4), (1, 9, 9), (2, 0), (2, 2), (3,)]
+    if not _rx_class_known():
+        pass
+    seqs = _short_sequences(alpha, 3 if tier == "quick" else 5, prefix=(6,))
+    if not _rx_class_known():
+        seqs = [c for c in seqs if not any(op == 1 and a and a[0] > 0 and e for op, a, e in _rx_sim(c))]
+    return out + seqs
+
+
+def nontrivial_rxwake(case, out):
+    recs = _records(out, 0, 5)
+    return any(r[1] == 1 for r in recs if len(r) == 5) and bool(recs) and recs[-1][3] >= 1
+
+
+def hist_rxwake(cases, outs):
+    from run_check import parse_hexline
+    d = {"records": 0, "parked": 0, "wakes": 0, "finished_cases": 0, "error_cases": 0, "bytes_read": 0}
+    for o in outs:
+        if o.startswith("!"):
+            continue
+        recs = [r for r in _records(parse_hexline(o), 0, 5) if len(r) == 5]
+        d["records"] += len(recs)
+        d["parked"] += sum(r[1] for r in recs)
+        d["bytes_read"] += sum(r[0] for r in recs)
+        if recs:
+            d["wakes"] += recs[-1][3]
+            d["finished_cases"] += 1 if recs[-1][2] == 2 else 0
+            d["error_cases"] += 1 if recs[-1][2] == 9 else 0
+    return d
+
+
+def _rx_first_complaint(case, out):
+    """python replica of RxWake.judge: index and record of the first op the judge rejects (None if none)"""
+    w = max(1, min(case[0] if case else 0, 8192))
+    sent = cons = ended = 0
+    park = None
+    last = 0
+    recs = [r for r in _records(out, 0, 5)]
+    k = 0
+    for op, a, _ in _rx_sim(case):
+        if k >= len(recs) or len(recs[k]) != 5:
+            return (k, None)
+        c, ww, st, wk, av = recs[k]
+        woken = last < wk
+        park0 = None if woken else park
+        bad = False
+        if op in (0, 2):
+            n = min(min(a[0] if a else 0, 1 << 20), cons + w - sent)
+            fin = op == 2
+            if ended == 0 and (n > 0 or fin):
+                sent += n
+                ended = 1 if fin else 0
+            park = park0
+            bad = c != 0 or ww != 0 or wk < last
+        elif op == 3:
+            if ended == 0:
+                ended = 2
+            park = park0
+            bad = c != 0 or ww != 0 or wk < last
+        else:
+            high = max(min(a[1] if len(a) > 1 else 0, 1 << 20), 1)
+            low = min(min(a[0] if a else 0, 1 << 20), high)
+            bad = c < 0 or c > high or c > sent - cons or ww not in (0, 1) or wk < last
+            cons += max(c, 0)
+            park = (low - c if low > c else 0) if ww == 1 else None
+        if not bad and park is not None:
+            bad = ended != 0 or max(1, park) <= sent - cons or sent == cons + w
+        if bad:
+            return (k, (op, recs[k]))
+        last = wk
+        k += 1
+        if op == 1 and st in (2, 9):
+            break
+    return None
+
+
+def classify(p):
+    """known class: the judge's FIRST complaint is a read request that was parked (will_wake = 1) with
+    status Finishing, i.e. polled after the FIN had been fully received"""
+    if p.get("component") != "rxwake":
+        return None
+    from run_check import parse_hexline
+    try:
+        case = p.get("minimal_case", p["case"])
+        out = parse_hexline(p.get("minimal_impl", p["impl"]))
+        fc = _rx_first_complaint(case, out)
+    except Exception:
+        return None
+    if fc and fc[1] and fc[1][0] == 1 and fc[1][1][1] == 1 and fc[1][1][2] == 1:
+        return RX_CLASS
+    return None
+
+
 def _short_sequences(alphabet, maxlen, prefix=()):
     out = []
     for n in range(1, maxlen + 1):
@@ -299,7 +462,10 @@ registry.register("C02", {
          "valid": _nonneg, "nontrivial": nontrivial_sync(4, 7, 3), "histogram": hist_sync(4, 7, 3)},
         {"name": "idle", "gen": gen_idle, "fixed": fixed_idle, "quick": 12000, "thorough": 500000,
          "valid": _nonneg, "nontrivial": nontrivial_idle, "histogram": hist_idle},
+        {"name": "rxwake", "gen": gen_rxwake, "fixed": fixed_rxwake, "quick": 20000, "thorough": 1000000,
+         "valid": lambda c: _nonneg(c) and len(c) >= 1, "nontrivial": nontrivial_rxwake, "histogram": hist_rxwake},
     ],
+    "classify": classify,
     "rule": "cases: corpus + fixed families (hand-written scenarios: transmit/lose/retransmit/acknowledge, superseded in-flight "
             "values, threshold 0, values at 2^62-1; all operation sequences of length <= 3 (quick) / 5 (thorough) over a small "
             "alphabet per component; idle: deadline edges -1000/-999/0 us around last reset + max(idle, 3 PTO)) + seeded random "
@@ -323,6 +489,12 @@ registry.register("C02", {
         "(the sender's flow controller does not report blocked while stream and connection credit are available). The last premise "
         "is refuted for the real StreamFlowController (C02_interest_reported_refuted, KNOWN_FINDINGS class "
         "both_windows_blocked_state_masks_stream_credit); congestion/amplification limits and multiple streams are not in the model",
+        "rxwake: one peer-initiated stream of the real DefaultStreamManager (hook verif_hooks/recv.rs poll_rx), in-order data inside "
+        "the flow-control window (windows 1..8192), counting waker; the judge demands that a parked reader is woken once its low "
+        "watermark is buffered, the window can admit nothing more, or FIN/reset arrived, and that no request is parked in such a "
+        "state; there is no 'judge accepts the model' theorem for this component because the faithful model itself violates the "
+        "judge in the known class finished_stream_low_watermark_reader_parked (C02_reader_parked_on_finished_stream_refuted); "
+        "the generator leaves that class out until KNOWN_FINDINGS.txt lists it",
         "recovery timer: the decision function update_pto_timer / check_consistency is modelled from the source; its correspondence "
         "with the running recovery manager is the C09 manager driver (not duplicated here); hypothesis `bookkeeping` (ack-eliciting "
         "packet in flight -> time_of_last_ack_eliciting_packet is set) is visible in the theorem",
